@@ -188,3 +188,74 @@ Example C15_ex_claimable :
   get_prov s1 (3%N, false) <> None /\ get_coll s1 (3%N, false) = Some 7000000 /\
   is_blocked s1 3%N = false /\ get_prov s1 (1%N, true) = None.
 Proof. vm_compute. repeat split; try reflexivity. discriminate. Qed.
+
+(* ---------------------------------------------------------------------------------------------
+   Tie to the code by translation + proof: the functions below are GENERATED on every run from /repo's
+   current Go source (translator/gen_gofuncs.go -> Gen/GoCollat.v); the theorems say that the hand-written model the
+   property theorems above are about computes what the generated function computes, for all arguments. *)
+From Coq Require Import String.
+From JK Require Import Base.GoSem Gen.GoCollat Proofs.GoTieCollat.
+
+(* InitProvider, generated from the current source, refuses before any effect (existing provider, unparsable or
+   non-canonical creator), locks exactly the current collateral price, records exactly that amount and writes the
+   provider record; the model's step is the interpretation of these events with its bank's answer *)
+Theorem C15_code_tie_InitProvider :
+  forall s c ip space kb,
+    let lock := send (st_bank s) (acct c) escrow (st_price s) in
+    init_provider s c true true ip space kb
+    = match gen_InitProvider (GoTieCollat.is_some (get_prov s c)) (st_price s) true (snd c) (GoTieCollat.is_some lock) with
+      | GPanic => (s, Panic)
+      | GVal (_, false) => (s, Fail)
+      | GVal ([Ev _ [locked]; Ev _ [recorded]; _], true) =>
+          match lock with
+          | Some b =>
+              let rec := {| p_addr := c; p_ip := ip; p_space := space; p_creator := c; p_burned := 0;
+                            p_keybase := kb; p_claimers := [] |} in
+              (with_money s (aset sg_eqb (st_prov s) c rec) (aset sg_eqb (st_coll s) c recorded) b, Ok)
+          | None => (s, Fail)
+          end
+      | GVal (_, true) => (s, Fail)
+      end.
+Proof. exact init_provider_is_the_interpretation. Qed.
+Print Assumptions C15_code_tie_InitProvider.
+
+(* ShutdownProvider returns exactly the recorded amount and removes both records, once *)
+Theorem C15_code_tie_ShutdownProvider :
+  forall s c,
+    let amount := match get_coll s c with Some a => a | None => 0 end in
+    let back := if is_blocked s (acct c) then None else send (st_bank s) escrow (acct c) amount in
+    shutdown_provider s c true
+    = match gen_ShutdownProvider (GoTieCollat.is_some (get_prov s c)) (GoTieCollat.is_some (get_coll s c)) amount true (GoTieCollat.is_some back) with
+      | GPanic => (s, Panic)
+      | GVal (_, false) => (s, Fail)
+      | GVal ([Ev _ []], true) => (with_prov s (adel sg_eqb (st_prov s) c), Ok)
+      | GVal (_, true) =>
+          match back with
+          | Some b => (with_money s (adel sg_eqb (st_prov s) c) (adel sg_eqb (st_coll s) c) b, Ok)
+          | None => (s, Fail)
+          end
+      end.
+Proof. exact shutdown_provider_is_the_interpretation. Qed.
+Print Assumptions C15_code_tie_ShutdownProvider.
+
+Theorem C15_code_tie_closed_forms :
+  forall found price creator_ok not_canonical ok_lock prov_found coll_found amount ok_return,
+    gen_InitProvider found price creator_ok not_canonical ok_lock
+    = (if found then GVal ([], false)
+       else if price <? 0 then GPanic
+       else if negb creator_ok then GVal ([], false)
+       else if not_canonical then GVal ([], false)
+       else if negb ok_lock then GVal ([Ev "lock-collateral"%string [price]], false)
+       else GVal ([Ev "lock-collateral"%string [price]; Ev "record-collateral"%string [price]; Ev "set-provider"%string []], true)) /\
+    gen_ShutdownProvider prov_found coll_found amount creator_ok ok_return
+    = (if negb prov_found then GVal ([], false)
+       else if negb coll_found then GVal ([Ev "remove-provider"%string []], true)
+       else if amount <? 0 then GPanic
+       else if negb creator_ok then GVal ([], false)
+       else if negb ok_return then GVal ([Ev "return-collateral"%string [amount]], false)
+       else GVal ([Ev "return-collateral"%string [amount]; Ev "remove-collateral"%string []; Ev "remove-provider"%string []], true)).
+Proof.
+  intros. exact (conj (gen_InitProvider_spec found price creator_ok not_canonical ok_lock)
+                      (gen_ShutdownProvider_spec prov_found coll_found amount creator_ok ok_return)).
+Qed.
+Print Assumptions C15_code_tie_closed_forms.
